@@ -74,6 +74,14 @@ def tainted_programs(draw):
                         q.body.insert(pos, ast.Assign(targets=[ast.Name(id=trig, ctx=ast.Store())], value=ast.Constant(value=1), lineno=1))
                         kind = 'name+class-attribute-of-same-name'
                         break
+        if kind == 'name' and draw(st.integers(0, 3)) == 0:
+            # a global declaration of the trigger's name somewhere in the module: a declaration binds nothing, the name is still the builtin
+            funcs = [n for n in ast.walk(tree) if isinstance(n, (ast.FunctionDef, ast.AsyncFunctionDef))]
+            if funcs:
+                f = funcs[draw(st.integers(0, len(funcs) - 1))]
+                pos = 1 if (f.body and isinstance(f.body[0], ast.Expr) and isinstance(getattr(f.body[0], 'value', None), ast.Constant)) else 0
+                f.body.insert(pos, ast.Global(names=[trig]))
+                kind = 'name+global-declaration'
     ast.fix_missing_locations(tree)
     try:
         import warnings
